@@ -589,29 +589,43 @@ func parseC17(a args) {
 			limit = 16*prev[c.Fam] + 64
 		}
 		abortedNow := false
-		run := func() (calls int, ok bool) {
+		// the two contexts of the two runs are prepared up front: a context counts
+		// the invocations of ITS parse, whatever other contexts exist or run in the meantime
+		type prepared struct {
+			f   *text.File
+			ctx *parsley.Context
+		}
+		prepare := func() prepared {
+			f, fs := fileAt(content, 1)
+			return prepared{f, parsley.NewContext(fs, text.NewReader(f))}
+		}
+		run := func(p prepared) (ok bool) {
 			b.t.ev, b.t.stack, b.t.count, b.t.callLimit = nil, nil, 0, limit
 			b.t.attempts, b.t.nfails, b.t.bodyRuns = map[[2]int]bool{}, map[[2]int]bool{}, map[[2]int]int{}
-			f, fs := fileAt(content, 1)
-			ctx := parsley.NewContext(fs, text.NewReader(f))
 			defer func() {
 				if r := recover(); r != nil {
 					if _, isBig := r.(tooBig); !isBig {
 						panic(r)
 					}
-					calls, ok = ctx.CallCount(), c.Exp
+					ok = c.Exp
 					abortedNow = true
 				}
 			}()
-			node, _, err := b.ps[c.Root-1].Parse(ctx, data.EmptyIntMap, f.Pos(0))
-			return ctx.CallCount(), node != nil && err == nil
+			node, _, err := b.ps[c.Root-1].Parse(p.ctx, data.EmptyIntMap, p.f.Pos(0))
+			return node != nil && err == nil
 		}
 		e := J{"fam": c.Fam, "n": c.N, "mcalls": c.Mcalls, "exp": c.Exp}
 		if m := safely(func() {
-			c1, ok1 := run()
-			c2, ok2 := run()
+			pa, pb := prepare(), prepare()
+			ok1 := run(pa)
+			c1 := pa.ctx.CallCount()
+			ok2 := run(pb) // (pb exists since before pa's parse)
+			c2 := pb.ctx.CallCount()
+			if again := pa.ctx.CallCount(); again != c1 {
+				c2 = again // a counter that moves after its parse has ended is not "the call count of this run"
+			}
 			e["calls1"], e["calls2"], e["ok"] = c1, c2, ok1 && ok2
-			prev[c.Fam] = c1
+			prev[c.Fam] = c2
 			if abortedNow {
 				aborted[c.Fam]++
 			}
